@@ -14,6 +14,8 @@ CLAIMS = {
             'trusted: extractor T1-T10, sequential view, std Path/iterator/DashMap shims, is_fixture_imported_in_file abstract, goto handler glue and word-at-cursor lookup not covered', '§5-C01'),
     'C02': ('proof', 'find_closest_definition_excluding is proved to compute op_resolve with the filter d != D; lemmas: the answer is never D, always a registered definition passing the filter.',
             'as C01; references handler glue not covered', '§5-C02'),
+    'C04': ('proof', 'find_references_for_definition is proved to return exactly the reverse-index bucket of the definition\'s name filtered by "this usage resolves to the definition" (op_refs), find_fixture_definition (go-to-definition) is proved to resolve the first recorded usage under the cursor with the same resolve_usage function; lemmas: an entry is listed iff it resolves to D, unresolved usages are listed nowhere, one list element per index entry, goto on a usage == resolve_usage of that usage. The mirror between usages and usage_by_fixture is proved per mutator (unit index_maint).',
+            'trusted: as C01; wf clause unique_at_line assumed; code-lens / call-hierarchy / CLI counts glue not covered', '§5-C04'),
     'C06': ('proof', 'Verus discharges, for all inputs and all loop iterations, exact postconditions (effect + frame) of the index-maintenance functions extracted from /repo (record_*, cleanup_*).',
             'trusted: extractor, sequential view, DashMap/HashSet shims; visitors and parser abstract', '§5-C06'),
 }
